@@ -99,10 +99,10 @@ SCANNER_TRUST = ['input model: Input::rem()/avail()/buffered()/cap() are ghost m
 PROPS['C04'] = {
     'units': ['parser'],
     'level': 'proof',
-    'claim': 'Tier 1 (escape decoding): Scanner::resolve_flow_scalar_escape_sequence is verified against yaml_escape / hex_value / is_scalar_value written from YAML 1.2 section 5.7: every named escape yields its code point and consumes exactly two characters; \\x \\u \\U need exactly 2/4/8 hex digits forming a Unicode scalar value and yield that code point; every other escape character and every truncated or non-scalar hex escape is an Err. char class predicates equal their spec classes. For all inputs, no bound.',
-    'technique': 'Verus: function-against-spec-function postcondition (yaml_escape table, hex_value recursion) with loop invariant over the hex digits',
-    'not_decided': ['tier 2/3: the non-blank run decoder (quote doubling, escaped break) and the folding loops of scan_flow_scalar / scan_plain_scalar are not under contract yet', 'next_can_be_plain_scalar: default implementation verified against sp_plain_ok; the StrInput override is byte-indexed (Kani tier)'],
-    'trust': SCANNER_TRUST,
+    'claim': 'Escapes: Scanner::resolve_flow_scalar_escape_sequence is verified against yaml_escape / hex_value / is_scalar_value written from YAML 1.2 section 5.7: every named escape yields its code point and consumes exactly two characters; \\x \\u \\U need exactly 2/4/8 hex digits forming a Unicode scalar value and yield that code point; every other escape character and every truncated or non-scalar hex escape is an Err. Quoted scalars: consume_flow_scalar_non_whitespace_chars is verified against the recursive oracle nw_spec (decoded text of a run of non-blank characters, quote doubling, escaped line break); the main loop of scan_flow_scalar keeps string == the concatenation of nw_spec texts and qws_text(white-space run) where qws_text is the folding rule of the statement (one break -> space, n+1 breaks -> n line feeds, blanks around a break dropped, an escaped break joins without a space). Plain scalars: scan_plain_scalar ensures that the token text is pfs(characters consumed).out, pfs being the left-to-right folding oracle (content verbatim, interior blanks kept, one break -> space, n+1 breaks -> n line feeds, CR LF once, trailing white space dropped), and that content characters are exactly those sp_plain_ok admits. char class predicates equal their spec classes. For all inputs, no bound.',
+    'technique': 'Verus: function-against-spec-function postconditions (yaml_escape table, hex_value recursion, nw_spec, qws_text, pfs), ghost accumulator for the quoted-scalar loop, opaque value-level invariant plain_rel_v with one lemma per transition for the plain-scalar loops',
+    'not_decided': ['scan_flow_scalar: the text clause lives at loop level (string == g_acc at every iteration), the final string.into() of the quoted scalar is not routed through R13 yet', 'plain scalars: the clause is stated for a scalar that starts at a non-blank character (every call site in the scanner)', 'next_can_be_plain_scalar: default implementation verified against sp_plain_ok; the StrInput override is byte-indexed (A8 + bounded Kani differential, see C10)'],
+    'trust': SCANNER_TRUST + ['R13: `string.into()` (String -> Cow<str>) in scan_plain_scalar is evaluated by the external_body helper verif_string_into_cow with the ASSUMED contract r@ == s@ (vstd has no specification for the blanket Into)'],
 }
 PROPS['C10'] = {
     'units': ['parser'],
